@@ -78,7 +78,7 @@ func (n *ProcessorNode) ID() string {
 	return n.Name
 }
 
-func (n *ProcessorNode) Run(ctx context.Context) error {
+func (n *ProcessorNode) Run(ctx context.Context) (err error) {
 	// Once Run returns no staged swap is ever applied: fail a swap that is
 	// still pending and make Reconfigure refuse from now on, so its caller never
 	// waits for a goroutine that is gone.
